@@ -20,6 +20,7 @@ import (
 	"github.com/paulsonkoly/chess-3/board"
 	. "github.com/paulsonkoly/chess-3/chess"
 	"github.com/paulsonkoly/chess-3/move"
+	"github.com/paulsonkoly/chess-3/params"
 	"github.com/paulsonkoly/chess-3/search"
 	"github.com/paulsonkoly/chess-3/uci"
 
@@ -295,6 +296,26 @@ func containsMove(l []move.Move, m move.Move) bool {
 	return false
 }
 
+// randomParams: in an spsa build (-tags "verif spsa") every tunable search parameter is set to a random
+// in-range value, read from the engine's own UCI option list; in a normal build this does nothing.
+func randomParams(rng *rand.Rand) string {
+	var set []string
+	for _, line := range strings.Split(params.UCIOptions(), "\n") {
+		f := strings.Fields(line)
+		// option name X type spin default d min a max b
+		if len(f) == 11 && f[0] == "option" && f[3] == "type" {
+			lo, _ := strconv.Atoi(f[8])
+			hi, _ := strconv.Atoi(f[10])
+			v := lo + rng.Intn(hi-lo+1)
+			if err := params.Set(f[2], v); err != nil {
+				panic(err)
+			}
+			set = append(set, fmt.Sprintf("%s=%d", f[2], v))
+		}
+	}
+	return strings.Join(set, " ")
+}
+
 var ttSizes = []int{32000, 32000, 1 << 20, 1 << 20, 16 << 20}
 
 // sweep: every hard node budget 0..K on a root (each k is one abort point), plus the other limit kinds
@@ -303,6 +324,7 @@ func (r *rec) sweep(corpus []string, K int) {
 	for !r.full() {
 		fen, prefix, b := r.rootWithPrefix(corpus)
 		r.t++
+		randomParams(r.rng)
 		tt := ttSizes[r.rng.Intn(len(ttSizes))]
 		s := search.New(tt)
 		eng++
